@@ -16,7 +16,8 @@ package main
 //   D diagnostic. `disp` is the renderer of the item's own type; `edisp`/`ddisp` are BOTH renderers
 //   applied to the item's span (tie data for the Lean transcription `renderErrOK`/`renderDiagOK`).
 //   pos: `in` = both ends are real positions of the named file's text (index ≤ rune count, line and
-//   column as recomputed from the text) ; `whole` = the all-zero span naming a known file.
+//   column as recomputed from the text) ; `whole` = the all-zero span naming a known file;
+//   `whole-nofile` = the all-zero span without a file name (what builtin definitions carry).
 // A hang or a fatal stack overflow kills the process: a watchdog exits with "fatal error: watchdog"
 // after -limit seconds per line (core.go_lines attributes the dead worker to the line).
 //
@@ -182,6 +183,8 @@ func (c *totalCase) judge(tag string, kind int, sp errors.Span, msg string, own 
 	pos := ""
 	ti := c.idx(sp.Filename)
 	switch {
+	case isZeroSpan(sp) && sp.Filename == "":
+		pos = "whole-nofile" // the position of builtins: no file, no location
 	case ti == nil:
 		pos = "bad:unknown-file"
 	case isZeroSpan(sp):
